@@ -293,6 +293,28 @@ func (w *Work) Query(name, q string, args ...any) ([][]string, error) {
 	return out, rows.Err()
 }
 
+// HoldReadLock opens a read transaction on a database file with our own connection and keeps it
+// (a SHARED lock: others may read and prepare writes, but no COMMIT gets through) until release.
+func (w *Work) HoldReadLock(name string) (release func(), err error) {
+	db, err := sql.Open("sqlite3", "file:"+w.Path(name))
+	if err != nil {
+		return nil, err
+	}
+	db.SetMaxOpenConns(1)
+	tx, err := db.Begin()
+	if err != nil {
+		db.Close()
+		return nil, err
+	}
+	var n int
+	if err := tx.QueryRow("SELECT count(*) FROM sqlite_master").Scan(&n); err != nil {
+		tx.Rollback()
+		db.Close()
+		return nil, err
+	}
+	return func() { tx.Rollback(); db.Close() }, nil
+}
+
 // Exec runs statements on a database file with our own connection.
 func (w *Work) Exec(name string, stmts ...string) error {
 	db, err := sql.Open("sqlite3", "file:"+w.Path(name)+"?_fk=1")
